@@ -1,5 +1,6 @@
 import PraatModel.Str
 import PraatModel.Tier
+import PraatModel.Quote
 
 /-!
 # The two text readers of textgrid_io.py, as written
@@ -43,28 +44,14 @@ def fetchRow (s : Txt) (i : Nat) : Except Err (Txt × Nat) := do
   let w := if w[0]! == '"' && w[w.size - 1]! == '"' then slice w 1 (w.size - 1) else w
   pure (strip w, e + 1)
 
-/-- the quote-run loop of `_fetchTextRow`: from `endIndex`, find the next quote, run over the quotes; an odd run ends the text -/
-def quoteLoop (s : Txt) (fuel : Nat) (endIndex : Nat) : Except Err Nat :=
-  match fuel with
-  | 0 => .error .ValueError
-  | fuel + 1 => do
-    let qs ← index s (lit "\"") endIndex
-    -- while dataStr[quoteEndIndex] == '"': quoteEndIndex += 1   (IndexError at the end of the string)
-    let rec run (fuel2 : Nat) (q : Nat) : Except Err Nat :=
-      match fuel2 with
-      | 0 => .error .IndexError
-      | fuel2 + 1 =>
-        if q ≥ s.size then .error .IndexError
-        else if s[q]! == '"' then run fuel2 (q + 1) else .ok q
-    let qe ← run (s.size + 1) qs
-    if (qe - qs) % 2 ≠ 0 then pure qe else quoteLoop s fuel qe
-
-/-- `_fetchTextRow(dataStr, index)` -/
+/-- `_fetchTextRow(dataStr, index)`: the quote-run loop is the one-pass machine `scanText` of Quote.lean -/
 def fetchTextRow (s : Txt) (i : Nat) : Except Err (Txt × Nat) := do
-  let e ← quoteLoop s (s.size + 1) (i + 1)
+  -- endIndex = startIndex + 1; then the loop
+  let n ← scanText none 0 (s.toList.drop (i + 1))
+  let e := i + 1 + n
   let w := slice s i e
   let w := if w.size ≥ 2 then slice w 1 (w.size - 1) else (if w.size = 1 then #[] else w)   -- word[1:-1]
-  let w := replace (strip w) (lit "\"\"") (lit "\"")
+  let w := (unescapeL (stripList w.toList)).toArray                                            -- .strip().replace('""', '"')
   let nl ← index s (lit "\n") e
   pure (w, nl + 1)
 
